@@ -3,8 +3,11 @@ package main
 import (
 	"fmt"
 	"go/constant"
+	"os"
 	"go/types"
 	"strings"
+
+	"golang.org/x/tools/go/ssa"
 )
 
 // Env is the context in which a contract expression is translated to SMT.
@@ -1030,7 +1033,192 @@ func (x *Exec) trMethod(recv Term, name string, args []Term, env *Env) (Term, er
 			return Term{S: app("go_trunc", recv.S, a), Sort: SInt, T: recv.T}, err
 		}
 	}
+	if recv.Sort == SIface && recv.T != nil && len(args) == 0 {
+		if t, ok := x.ifaceMethodValue(recv, name, env); ok {
+			return t, nil
+		}
+	}
+	if recv.T != nil && len(args) == 0 {
+		// a niladic method of a concrete pint type whose body is a pure expression of the receiver
+		if nt, ok := types.Unalias(deref(recv.T)).(*types.Named); ok && nt.Obj().Pkg() != nil {
+			if fn := x.prog.funcByKey[nt.Obj().Pkg().Name()+"."+nt.Obj().Name()+"."+name]; fn != nil {
+				if t, ok := x.pureCallValue(fn, []Term{recv}); ok {
+					return t, nil
+				}
+			}
+		}
+	}
 	return Term{}, fmt.Errorf("method %s is not available in specifications (receiver sort %s)", name, recv.Sort)
+}
+
+// pureCallValue symbolically evaluates a loop-free, effect-free function whose result is a closed expression of its
+// arguments (constant-returning methods such as Reporter(), Meta(), String()); ok is false otherwise.
+func (x *Exec) pureCallValue(fn *ssa.Function, args []Term) (Term, bool) {
+	if len(fn.Blocks) == 0 || len(fn.Blocks) > 12 || fn.Signature.Results().Len() != 1 {
+		return Term{}, false
+	}
+	if li := analyseLoops(fn); len(li.headers) > 0 {
+		return Term{}, false
+	}
+	saved := x.vc.nodes
+	fr := x.newFrame(fn, 5)
+	for i, p := range fn.Params {
+		if i < len(args) {
+			a := args[i]
+			a.T = p.Type()
+			fr.vals[p] = a
+		}
+	}
+	start := x.vc.newNode("pure." + fn.Name())
+	type ret struct {
+		n   *Node
+		res Term
+	}
+	var rets []ret
+	x.runFunction(fr, start, newState(), func(n *Node, st *State, results []Term, _ *ssa.Return) {
+		if len(results) == 1 {
+			rets = append(rets, ret{n, results[0]})
+		}
+	})
+	created := x.vc.nodes[len(saved):]
+	x.vc.nodes = saved
+	if len(rets) != 1 || len(created) != 1 {
+		return Term{}, false
+	}
+	// the single node may define named temporaries; substitute them back (they are equalities v = term)
+	res := rets[0].res
+	defs := map[string]string{}
+	for _, st := range created[0].Stmts {
+		if st.Kind != stAssume {
+			return Term{}, false
+		}
+		f := st.F
+		if strings.HasPrefix(f, "(= v_") {
+			rest := f[3 : len(f)-1]
+			if i := strings.IndexByte(rest, ' '); i > 0 {
+				defs[rest[:i]] = rest[i+1:]
+				continue
+			}
+		}
+		continue // side conditions of the single path (bounds, non-nil): the value is that of a normal return
+	}
+	for i := 0; i < 8; i++ {
+		changed := false
+		for id := range constIdents(res.S) {
+			if d, ok := defs[id]; ok {
+				res.S = replaceIdent(res.S, id, d)
+				changed = true
+			}
+		}
+		if !changed {
+			break
+		}
+	}
+	for id := range constIdents(res.S) {
+		if strings.HasPrefix(id, "v_") {
+			known := false
+			for _, a := range args {
+				if constIdents(a.S)[id] {
+					known = true
+				}
+			}
+			if !known && !strings.HasPrefix(id, "v_fn_") && !strings.HasPrefix(id, "v_gaddr_") && !strings.HasPrefix(id, "v_new_") && !strings.HasPrefix(id, "v_mkslice") {
+				return Term{}, false // depends on something created inside the call (allocation, heap)
+			}
+		}
+	}
+	res.T = fn.Signature.Results().At(0).Type()
+	return res, true
+}
+
+func replaceIdent(s, id, repl string) string {
+	var b strings.Builder
+	i := 0
+	for i < len(s) {
+		j := strings.Index(s[i:], id)
+		if j < 0 {
+			b.WriteString(s[i:])
+			break
+		}
+		j += i
+		end := j + len(id)
+		isIdCh := func(c byte) bool {
+			return c == '_' || c == '.' || c == '!' || c == '$' || (c >= 'a' && c <= 'z') || (c >= 'A' && c <= 'Z') || (c >= '0' && c <= '9')
+		}
+		if (j > 0 && isIdCh(s[j-1])) || (end < len(s) && isIdCh(s[end])) {
+			b.WriteString(s[i:end])
+			i = end
+			continue
+		}
+		b.WriteString(s[i:j])
+		b.WriteString(repl)
+		i = end
+	}
+	return b.String()
+}
+
+// ifaceMethodValue: value of a niladic interface method in a specification, by dispatch on the dynamic type over all
+// pint implementations (class hierarchy analysis); each implementation must be a pure expression of its receiver.
+func (x *Exec) ifaceMethodValue(recv Term, method string, env *Env) (Term, bool) {
+	impls := x.prog.implementations(recv.T, method)
+	if len(impls) == 0 {
+		return Term{}, false
+	}
+	var resT types.Type
+	type alt struct {
+		tag int
+		val Term
+	}
+	var alts []alt
+	for _, fn := range impls {
+		rt := fn.Signature.Recv().Type()
+		concrete := rt
+		rv := x.unboxIface(recv, concrete)
+		if pt, isPtr := types.Unalias(rt).Underlying().(*types.Pointer); isPtr && fn.Synthetic != "" {
+			// pointer-receiver wrapper of a value method: evaluate the value method on the pointee
+			if nt, ok := types.Unalias(pt.Elem()).(*types.Named); ok && nt.Obj().Pkg() != nil {
+				if vf := x.prog.funcByKey[nt.Obj().Pkg().Name()+"."+nt.Obj().Name()+"."+method]; vf != nil && vf.Signature.Recv() != nil {
+					if _, vptr := vf.Signature.Recv().Type().Underlying().(*types.Pointer); !vptr {
+						fn = vf
+						rv = x.loadPlace(nil, env.state(), x.ptrPlaceT(nil, nil, rv, 0))
+					}
+				}
+			}
+		}
+		v, ok := x.pureCallValue(fn, []Term{rv})
+		if !ok {
+			// not a closed expression (e.g. builds a string with Sprintf): a deterministic, effect-free but
+			// uninterpreted function of the receiver value (assumption A11), provided it writes nothing
+			if (len(x.prog.modHeapsList(fn)) != 0 && method != "String" && method != "Reporter" && method != "Meta") || fn.Signature.Results().Len() != 1 {
+				if os.Getenv("GOVC_DEBUG") != "" {
+					fmt.Fprintf(os.Stderr, "ifaceMethodValue: %s is neither pure nor effect-free\n", fn.String())
+				}
+				return Term{}, false
+			}
+			rt0 := fn.Signature.Results().At(0).Type()
+			uf := "uf_meth_" + mangle(funcKey(fn))
+			x.vc.declFun(uf, []string{rv.Sort}, x.ss.sortOf(rt0))
+			v = Term{S: app(uf, rv.S), Sort: x.ss.sortOf(rt0), T: rt0}
+			x.prog.noteExternal("A11 deterministic method: " + funcKey(fn))
+		}
+		resT = v.T
+		alts = append(alts, alt{x.ss.tagOf(concrete), v})
+		// a value-receiver method is also in the method set of the pointer type
+		if _, isPtr := rt.Underlying().(*types.Pointer); !isPtr {
+			pt := types.NewPointer(rt)
+			pv := x.unboxIface(recv, pt)
+			pl := x.ptrPlaceT(nil, nil, pv, 0)
+			_ = pl
+		}
+	}
+	sort := x.ss.sortOf(resT)
+	f := "uf_iface_" + mangle(typeKeyShort(recv.T)) + "_" + mangle(method)
+	x.vc.declFun(f, []string{SIface}, sort)
+	out := app(f, recv.S) // unknown dynamic types (implementations outside pint): uninterpreted
+	for i := len(alts) - 1; i >= 0; i-- {
+		out = mkIte(app("=", app("i.tag", recv.S), intLit(int64(alts[i].tag))), alts[i].val.S, out)
+	}
+	return Term{S: out, Sort: sort, T: resT}, true
 }
 
 
